@@ -1382,7 +1382,8 @@ where
 {
 	let k = w.keychain(keychain_mask)?;
 
-	let key_id = keys::next_available_key(&mut *w, keychain_mask)?;
+	let parent_key_id = w.parent_key_id();
+	let key_id = keys::next_available_key(&mut *w, keychain_mask, &parent_key_id)?;
 
 	let blind = k.derive_key(amount, &key_id, SwitchCommitmentType::Regular)?;
 	let commit = k.secp().commit(amount, blind.clone())?;
